@@ -428,6 +428,7 @@ fn apply_mutation(orig: &[u8], entries: &[PEntry], m: &Mutation) -> Vec<u8> {
     }
 }
 
+static DEADLINE: std::sync::OnceLock<std::time::Instant> = std::sync::OnceLock::new();
 static SHARD: std::sync::atomic::AtomicU32 = std::sync::atomic::AtomicU32::new(0);
 fn big_ok_shard() -> u32 {
     SHARD.load(std::sync::atomic::Ordering::Relaxed)
@@ -523,6 +524,11 @@ async fn tamper_journal(orig: &[u8], enc: bool, thorough: bool, rng: &mut Rng, r
     let big_shard = if thorough { big_ok_shard() < 4 } else { big_ok_shard() == 0 };
     let mut big_left: u32 = if !big_shard { 0 } else if thorough { 6 } else { 1 };
     for m in muts {
+        // the enumeration of one journal can be long: it never runs far past the shard's time budget
+        if DEADLINE.get().map(|d| std::time::Instant::now() > *d).unwrap_or(false) {
+            rep.event("enumeration_cut_at_time_budget");
+            break;
+        }
         let bytes = apply_mutation(orig, &entries, &m);
         if bytes == orig {
             continue;
@@ -587,6 +593,7 @@ async fn tamper_journal(orig: &[u8], enc: bool, thorough: bool, rng: &mut Rng, r
 
 pub async fn run(ctx: &Ctx, rep: &mut ShardReport) {
     SHARD.store(ctx.shard, std::sync::atomic::Ordering::Relaxed);
+    let _ = DEADLINE.set(ctx.start + std::time::Duration::from_secs(ctx.budget_s + 20));
     let cache = CacheMode::for_shard(ctx.shard);
     rep.process_cfg = cache.name().into();
     arm_sched(ctx.seed ^ 0xC11 ^ ((ctx.shard as u64) << 32));
